@@ -287,6 +287,17 @@ func (w *world) c2cOp() {
 			}
 			mx = new(big.Int).Set(tot)
 		}
+		if rng.Intn(5) == 0 {
+			// supplies at the edge of the amount range (2^255-1 is the largest amount a send can carry; the issue is
+			// answered with a mint of the whole supply, and a mintable token can later be minted up to its maximum)
+			edge := new(big.Int).Lsh(big.NewInt(1), 255)
+			edge.Sub(edge, big.NewInt(int64(rng.Intn(3))-1))
+			mx = edge
+			if rng.Intn(2) == 0 {
+				tot = new(big.Int).Set(edge)
+			}
+			w.out.Count("deep:issue-with-supply-at-the-edge-of-the-amount-range")
+		}
 		n := len(dp.issued)
 		if b := w.call(kp, cToken, types.ZnnTokenStandard, constants.TokenIssueAmount, "deep", definition.IssueMethodName,
 			fmt.Sprintf("deep-%d", n), fmt.Sprintf("DP%d", n), "", tot, mx, uint8(rng.Intn(19)), mintable, burnable, rng.Intn(4) == 0); b != nil {
